@@ -29,13 +29,14 @@ import (
 	"strings"
 	"sync"
 	"sync/atomic"
+	"syscall"
 	"testing"
 	"time"
 )
 
 // zzC14Spec is the scenario description passed in ZZC14_SPEC.
 type zzC14Spec struct {
-	Mode   string `json:"mode"`   // "trace" | "poll"
+	Mode   string `json:"mode"`   // "trace" | "poll" | "crash"
 	Writer string `json:"writer"` // "filter"
 	Root   string `json:"root"`   // scratch root, exists, empty
 	Out    string `json:"out"`    // NDJSON result file
@@ -43,6 +44,11 @@ type zzC14Spec struct {
 	Seed   int64  `json:"seed"`
 	// MaxReads bounds the number of reads of the concurrent reader.
 	MaxReads int `json:"maxreads"`
+	// Resume: the scratch root is what an earlier (killed) child left behind;
+	// set-up must take the destination and everything else as it finds them.
+	Resume bool `json:"resume"`
+	// Gen distinguishes the documents of successive children on one root.
+	Gen int `json:"gen"`
 }
 
 // zzC14Writer is one of the real save paths.
@@ -163,7 +169,11 @@ func zzC14Run(t *testing.T, sp *zzC14Spec, w zzC14Writer) {
 		}()
 	}
 
-	for _, size := range sp.Sizes {
+	for i, size := range sp.Sizes {
+		if sp.Mode == "crash" && i == len(sp.Sizes)-1 {
+			zzC14CrashWatcher(dst)
+		}
+
 		ver++
 		lg.add(map[string]any{"ev": "begin", "id": ver, "want": size})
 		zzC14Mark(fmt.Sprintf("begin/%d", ver))
@@ -230,6 +240,55 @@ func zzC14Run(t *testing.T, sp *zzC14Spec, w zzC14Writer) {
 	lg.flush(t, sp.Out)
 }
 
+// zzC14CrashWatcher is the "power cord" of the crash mode: as soon as a file
+// that did not exist before the last save shows up next to the destination
+// (or in TMPDIR) with a non-zero, no longer growing size -- i.e. the writer is
+// somewhere between its last write and the end of the save -- the whole
+// process is killed with SIGKILL.  Whatever it leaves behind (typically a
+// left-over temporary file) is the starting state of the next child.
+func zzC14CrashWatcher(dst string) {
+	dirs := []string{filepath.Dir(dst)}
+	if td := os.TempDir(); td != dirs[0] {
+		dirs = append(dirs, td)
+	}
+
+	known := map[string]bool{dst: true}
+	for _, d := range dirs {
+		ents, _ := os.ReadDir(d)
+		for _, e := range ents {
+			known[filepath.Join(d, e.Name())] = true
+		}
+	}
+
+	go func() {
+		last := map[string]int64{}
+		for {
+			for _, d := range dirs {
+				ents, _ := os.ReadDir(d)
+				for _, e := range ents {
+					p := filepath.Join(d, e.Name())
+					if known[p] || e.IsDir() {
+						continue
+					}
+
+					fi, err := e.Info()
+					if err != nil {
+						continue
+					}
+
+					if n := fi.Size(); n > 0 && last[p] == n {
+						_ = syscall.Kill(syscall.Getpid(), syscall.SIGKILL)
+					} else {
+						last[p] = n
+					}
+				}
+			}
+
+			time.Sleep(100 * time.Microsecond)
+		}
+	}()
+}
+
 func zzC14LoadSpec(t *testing.T) (sp *zzC14Spec) {
 	s := os.Getenv("ZZC14_SPEC")
 	if s == "" {
@@ -247,22 +306,31 @@ func zzC14LoadSpec(t *testing.T) (sp *zzC14Spec) {
 // zzC14Filter drives a filter-list refresh.
 type zzC14Filter struct {
 	d      *DNSFilter
-	body   atomic.Pointer[[]byte]
+	sp     *zzC14Spec
+	resp   atomic.Pointer[zzC14Resp]
 	bodies map[int][]byte
 	fails  map[int]int
+}
+
+// zzC14Resp is what the list server does for the next download: it promises
+// body and delivers its first deliver bytes; cut says how it stops short.
+type zzC14Resp struct {
+	body    []byte
+	deliver int
+	cut     string // "" | "length" | "chunked"
 }
 
 // zzC14Body renders a rule list of exactly max(size, minimum) bytes whose
 // parsed form is identical to itself: no comments, no blank lines, no
 // surrounding whitespace, every line terminated.  Long lines keep the number
 // of write system calls (one per line in the real parser) reasonable.
-func zzC14Body(ver, size int) (b []byte) {
+func zzC14Body(gen, ver, size int) (b []byte) {
 	if size == 0 {
 		return []byte{}
 	}
 
 	buf := &bytes.Buffer{}
-	fmt.Fprintf(buf, "||zzc14-v%d.example^\n", ver)
+	fmt.Fprintf(buf, "||zzc14-g%d-v%d.example^\n", gen, ver)
 	const lineLen = 6000
 	for buf.Len() < size {
 		rest := size - buf.Len()
@@ -286,13 +354,30 @@ func zzC14Body(ver, size int) (b []byte) {
 }
 
 func (w *zzC14Filter) setup(t *testing.T, sp *zzC14Spec) (dst string, init int) {
+	w.sp = sp
 	w.bodies = map[int][]byte{}
 	w.fails = map[int]int{}
-	empty := []byte{}
-	w.body.Store(&empty)
+	w.resp.Store(&zzC14Resp{})
 
 	srv := httptest.NewServer(http.HandlerFunc(func(rw http.ResponseWriter, _ *http.Request) {
-		_, _ = rw.Write(*w.body.Load())
+		r := w.resp.Load()
+		switch r.cut {
+		case "length":
+			// Promise the whole body, deliver a part: the server closes the
+			// connection when the handler returns.
+			rw.Header().Set("Content-Length", fmt.Sprint(len(r.body)))
+			_, _ = rw.Write(r.body[:r.deliver])
+		case "chunked":
+			// Deliver a part of a chunked body and abort the connection.
+			_, _ = rw.Write(r.body[:r.deliver])
+			if f, ok := rw.(http.Flusher); ok {
+				f.Flush()
+			}
+
+			panic(http.ErrAbortHandler)
+		default:
+			_, _ = rw.Write(r.body)
+		}
 	}))
 	t.Cleanup(srv.Close)
 
@@ -319,24 +404,46 @@ func (w *zzC14Filter) setup(t *testing.T, sp *zzC14Spec) (dst string, init int) 
 	t.Cleanup(d.Close)
 	w.d = d
 
-	return d.conf.Filters[0].Path(dataDir), -1
+	dst = d.conf.Filters[0].Path(dataDir)
+	init = -1
+	if fi, serr := os.Stat(dst); sp.Resume && serr == nil {
+		init = int(fi.Size())
+	}
+
+	return dst, init
 }
 
-// save: size >= 0 is a refresh that downloads a new list of that size;
-// size < 0 is a refresh that fails after -size good bytes have been written
-// to the pending file (the parser rejects the next line as binary), so the
-// list on disk must stay what it is.
+// save: size >= 0 is a refresh that downloads a new list of that size.
+// size < 0 is a refresh that must FAIL after about -size bytes of the new list
+// have been written to the pending file, so that the list on disk has to stay
+// what it is; how it fails depends on -size mod 3:
+//
+//	0  the next line contains a binary character (the parser rejects it);
+//	1  the server promised more (Content-Length) than it sends and closes;
+//	2  the server aborts a chunked body in the middle.
+//
+// In the last two cases the document the server intended to send is about
+// twice as long as what arrives, and the cut is in the middle of a line.
 func (w *zzC14Filter) save(t *testing.T, ver, size int) (err error) {
 	wantUpdated := 1
-	b := zzC14Body(ver, size)
+	r := &zzC14Resp{body: zzC14Body(w.sp.Gen, ver, size)}
 	if size < 0 {
-		b = append(zzC14Body(ver, -size), []byte("||bad\x01line^\n||never-written.example^\n")...)
-		w.fails[ver] = len(b)
+		n := -size
+		switch n % 3 {
+		case 0:
+			r.body = append(zzC14Body(w.sp.Gen, ver, n), []byte("||bad\x01line^\n||never-written.example^\n")...)
+		case 1, 2:
+			r.body = zzC14Body(w.sp.Gen, ver, 2*n+4000)
+			r.deliver = n + 1500
+			r.cut = []string{"", "length", "chunked"}[n%3]
+		}
+
+		w.fails[ver] = len(r.body)
 		wantUpdated = 0
 	}
 
-	w.bodies[ver] = b
-	w.body.Store(&b)
+	w.bodies[ver] = r.body
+	w.resp.Store(r)
 
 	rec := httptest.NewRecorder()
 	req := httptest.NewRequest(http.MethodPost, "/control/filtering/refresh", strings.NewReader(`{"whitelist":false}`))
